@@ -116,7 +116,21 @@ def p3_post():
             for leaf in T.loop_leaves(idx):
                 for t in T.binary_apps(leaf, c1, {'multiply', 'add'}):
                     out.extend(T.closures(t))
-    out += list(T.grow(list(T.grow([a, b], [], {'raggedcat', 'raggedsum'})), [a, b], POST_OPS))
+    ragged = list(T.grow([a, b], [], {'raggedcat', 'raggedsum'}))
+    out += list(T.grow(ragged, [a, b], POST_OPS))
+    # a loop sum added to an array whose SHAPE is only known after another loop (total length of a variable-size concatenation):
+    # the accumulator is allocated between the loops; equal loop lengths are merged into one for-loop
+    for R in ragged:
+        sh, k = T.typeof(R)
+        for idx in (L, M):
+            scal = T.loop_leaves(idx)[0]
+            body = scal
+            for n in reversed(sh):
+                body = ('insertaxis', (0, n), body)
+            for LSum in T.closures(body):
+                if LSum[0] == 'loopsum':
+                    s_ = ('add', (), R, LSum)
+                    out += [s_, ('add', (), LSum, R), ('multiply', (), s_, ('const', (2., 'f'))), (R, s_)]
     return _dedup(out)
 
 
